@@ -635,6 +635,7 @@ struct Dumper {
       }
       O["inits"] = std::move(Inits);
     }
+    O["bfile"] = fileOf(FD->getBody()->getBeginLoc());
     O["body"] = dumpStmt(FD->getBody(), F);
     O["cfg"] = dumpCFG(FD, F);
     O["stmts"] = std::move(F.Stmts);
